@@ -211,7 +211,14 @@ def case_frames(mon, jde, eq_jde):
     for name, v in (("mean", xyz_date), ("j2000", xyz_j), ("b1950", xyz_b),
                     ("equinox", xyz_e)):
         nrm = math.sqrt(sum(c * c for c in v))
-        mon.check("frame.norm==R", abs(nrm - r) <= 1e-5,
+        mon.stat("frame_norm_minus_R_AU " + name, abs(nrm - r), case)
+        # a rotation keeps the length: 1e-9 AU (the unchanged tree stays
+        # within 3.4e-13 AU in the J2000 and arbitrary-equinox frames and
+        # 1.8e-11 AU in the frame of date, which neglects the Sun's
+        # latitude of 1.2"); the 1e-5 AU of the statement is for the
+        # comparison between frames
+        mon.check("frame.norm==R", abs(nrm - r) <= (1e-9 if name != "b1950"
+                                                    else 1e-5),
                   dict(case, frame=name, norm=nrm, R=r),
                   "frame.b1950-rows-overwritten" if name == "b1950"
                   and abs(nrm - r) <= 0.06 else None)
